@@ -5,6 +5,7 @@
    queriers, batches, flushes, compactions and queries, in any interleaving the locks admit. *)
 From Coq Require Import NArith List Bool Arith Lia.
 From LV Require Import Model.ConcSM Proofs.ConcSMBase Proofs.ConcSMData Proofs.ConcSM Proofs.ConcSMOrder.
+From LV Require Import Proofs.ConcSMLive Model.ConcSMCat Proofs.ConcSMCat.
 Import ListNotations.
 
 (* Every snapshot a query runs on is the concatenation of the first k pushed batches, for some k that is at
@@ -40,3 +41,108 @@ Theorem C10_flush_protocol_no_panic :
 Proof.
   intros ni nq sched st H. apply flusher_no_panic. apply reachable_inv. exists ni, nq, sched. exact H.
 Qed.
+
+(* No deadlock among the table locks: whenever some resource is held, a thread that holds one has an enabled
+   step (the holder of the highest-ranked held resource needs either no further lock or a higher, free one). *)
+Theorem C10_no_deadlock :
+  forall ni nq sched st,
+    run sched (init ni nq) = Some st -> (exists t k, held_by st t k) ->
+    exists t a st', (exists k, held_by st t k) /\ step t a st = Some st'.
+Proof.
+  intros ni nq sched st H. apply no_deadlock. apply reachable_inv. exists ni, nq, sched. exact H.
+Qed.
+
+(* The compaction swap is one step under the partitions write lock: nobody is reading the map; it replaces
+   exactly the planned old partitions by the merged one; a snapshot taken just before and one taken just after
+   consist of the same batches.  And no snapshot that any query ever runs on contains both the merged partition
+   and one of the partitions merged into it. *)
+Theorem C10_compaction_swap :
+  forall ni nq sched st st',
+    run sched (init ni nq) = Some st -> step TF ACSwap st = Some st' ->
+    holders (lks st) KPR = [] /\
+    (exists olds n m, fl st = F_c1 olds n m /\
+       s_pids (view (dat st')) = filter (fun i => negb (mem_nat i olds)) (s_pids (view (dat st))) ++ [n]) /\
+    s_batches (view (dat st')) = s_batches (view (dat st)).
+Proof.
+  intros ni nq sched st st' H. apply compaction_swap. apply reachable_inv. exists ni, nq, sched. exact H.
+Qed.
+
+Theorem C10_compaction_never_both :
+  forall ni nq sched st n p k0 s olds new,
+    run sched (init ni nq) = Some st ->
+    nth_error (qs st) n = Some p -> q_snapshot p = Some (k0, s) ->
+    In (olds, new) (swaps (dat st)) -> In new (s_pids s) -> forall o, In o olds -> ~ In o (s_pids s).
+Proof.
+  intros ni nq sched st n p k0 s olds new H. apply snapshot_never_both. apply reachable_inv.
+  exists ni, nq, sched. exact H.
+Qed.
+
+(* ---------------------------------------------------------------------------------------------- *)
+(* The catalogue look-up on the query path and the handle unwrap in the flush thread (Model/ConcSMCat.v).   *)
+(* full statements: refuted by the faithful model *)
+Definition C10_query_no_panic_statement : Prop :=
+  forall C nd nq sched st, crun C sched (cinit C nd nq) = Some st -> query_panicked st = false.
+Definition C10_flush_no_panic_statement : Prop :=
+  forall C nd nq sched st, crun C sched (cinit C nd nq) = Some st -> flush_panicked st = false.
+
+(* F14a: a query for a column the merged partition lacks, issued after Table::compact and before
+   prepare_compact; and a query still holding merged-away partitions after prepare_compact *)
+Theorem C10_query_no_panic_refuted :
+  (exists st, crun Cw witness_not_yet (cinit Cw 0 1) = Some st /\ query_panicked st = true) /\
+  (exists st, crun Cw witness_no_longer (cinit Cw 2 1) = Some st /\ query_panicked st = true) /\
+  ~ C10_query_no_panic_statement.
+Proof.
+  split; [exact witness_not_yet_panics|split; [exact witness_no_longer_panics|]].
+  intro S. destruct witness_not_yet_panics as (st & R & P). rewrite (S _ _ _ _ _ R) in P. discriminate.
+Qed.
+
+(* F14: a query inserts a placeholder handle into the freshly registered partition; the flush thread unwraps it *)
+Theorem C10_flush_no_panic_refuted :
+  (exists st, crun Cw witness_placeholder (cinit Cw 0 1) = Some st /\ flush_panicked st = true) /\
+  ~ C10_flush_no_panic_statement.
+Proof.
+  split; [exact witness_placeholder_panics|].
+  intro S. destruct witness_placeholder_panics as (st & R & P). rewrite (S _ _ _ _ _ R) in P. discriminate.
+Qed.
+
+(* guarded: as long as queries only reference columns that every batch carries (KnownClass = some query
+   references a column outside C), neither a query nor the flush thread panics, for all schedules *)
+Theorem C10_no_panic_guarded :
+  forall C nd nq sched st,
+    (forall c, In c (sched_cols sched) -> In c C) ->
+    crun C sched (cinit C nd nq) = Some st ->
+    query_panicked st = false /\ flush_panicked st = false.
+Proof.
+  intros C nd nq sched st HC H. apply (cinv_no_panic C). eapply cinv_run; [apply cinv_init|exact HC|exact H].
+Qed.
+
+(* ---------------------------------------------------------------------------------------------- *)
+(* non-vacuity: a concrete schedule with two batches, a freeze, a batch, a query during the flush, a compaction *)
+Example C10_example :
+  let sched :=
+    [(TI 0, AIStart [1; 2]%N); (TI 0, AILockBuf); (TI 0, AIPush); (TI 0, AIUnlockBuf); (TI 0, AIAck);
+     (TF, AFStart); (TF, AFzLockFrozen); (TF, AFzLockBuf); (TF, AFzSwap); (TF, AFzUnlockBuf);
+     (TF, AFzUnlockFrozen); (TF, AFUnlockWal);
+     (TQ 0, AQStart);
+     (TI 0, AIStart [3]%N); (TI 0, AILockBuf); (TI 0, AIPush); (TI 0, AIUnlockBuf);
+     (TF, ABLockFrozen); (TF, ABTake); (TF, ABLockParts); (TF, ABInsert); (TF, ABUnlockParts); (TF, ABUnlockFrozen);
+     (TQ 0, AQLockFrozen); (TQ 0, AQLockParts); (TQ 0, AQLockBuf); (TQ 0, AQCopy);
+     (TQ 0, AQUnlockBuf); (TQ 0, AQUnlockParts); (TQ 0, AQUnlockFrozen);
+     (TF, APlanLock); (TF, APlan (Some 0)); (TF, ACRead); (TF, ACReadDone); (TF, ACWrite); (TF, ACSwap); (TF, ACUnlock)] in
+  match run sched (init 1 1) with
+  | Some st =>
+      map q_snapshot (qs st) = [Some (1, mkSnap [0] [[1; 2]; [3]]%N)] /\
+      parts (dat st) = [(1, [[1; 2]]%N)] /\ obuf (dat st) = [[3]%N] /\ swaps (dat st) = [([0], 1)]
+  | None => False
+  end.
+Proof. vm_compute. repeat split. Qed.
+
+(* a step whose lock is taken is not enabled: the querier cannot snapshot while batch holds frozen_buffer *)
+Example C10_example_blocked :
+  let sched :=
+    [(TI 0, AIStart [1]%N); (TI 0, AILockBuf); (TI 0, AIPush); (TI 0, AIUnlockBuf); (TI 0, AIAck);
+     (TF, AFStart); (TF, AFzLockFrozen); (TF, AFzLockBuf); (TF, AFzSwap); (TF, AFzUnlockBuf);
+     (TF, AFzUnlockFrozen); (TF, AFUnlockWal); (TF, ABLockFrozen); (TF, ABTake);
+     (TQ 0, AQStart); (TQ 0, AQLockFrozen)] in
+  run sched (init 1 1) = None.
+Proof. vm_compute. reflexivity. Qed.
